@@ -152,9 +152,124 @@ func writeScanner(t *tr, out string) {
 	b.WriteString("import BloomVerif.Generated.Leaf\nset_option linter.unusedVariables false\nnamespace BloomVerif.Gen\nopen BloomVerif\n\n")
 	b.WriteString("/-- outcome of one `Next`: exhausted, error, a row `data[lo:hi]` with the new cursor, or an out-of-range index -/\ninductive ScanStep where\n  | done | err | panic\n  | row (lo hi pos : Int)\nderiving Repr, DecidableEq\n\n")
 	b.WriteString(guardedDef("BlockRowScanner.Next", t.scanner))
+	b.WriteString("\n/-- outcome of `heldSection`: not covered by the chunk in hand, the slice bounds inside the buffer, or an out-of-range slice -/\ninductive HeldOut where\n  | none | panic\n  | some (lo hi : Int)\nderiving Repr, DecidableEq\n\n")
+	b.WriteString(guardedDef("blockFilterCursor.heldSection", t.held))
 	b.WriteString("\nend BloomVerif.Gen\n")
 	if err := os.WriteFile(filepath.Join(out, "Scanner.lean"), []byte(b.String()), 0o644); err != nil {
 		fmt.Fprintln(os.Stderr, err)
 		os.Exit(2)
 	}
+}
+
+// ---------------------------------------------------------------- blockFilterCursor.heldSection
+
+// held regenerates blockFilterCursor.heldSection (file_format.go): `c.buf == nil` is the parameter `bufNil`,
+// `len(c.buf)` is `bufLen`, `c.chunkStart` is `chunkStart`; the returned slice c.buf[a:b] becomes an explicit
+// bounds obligation (`.panic` when it would be out of range) and the pair (a, b).
+func (t *tr) held() string {
+	const key = "blockFilterCursor.heldSection"
+	fd := t.funcs[key]
+	if fd == nil {
+		die("function %s not found in the repository", key)
+	}
+	t.cur = key
+	bad := func(n ast.Node, what string) { die("%s: shape: %s at %s", key, what, t.pos(n)) }
+	if fd.Recv == nil || len(fd.Recv.List) != 1 || len(fd.Recv.List[0].Names) != 1 || len(fd.Type.Params.List) != 1 || len(fd.Type.Params.List[0].Names) != 1 {
+		bad(fd, "signature")
+	}
+	recv := fd.Recv.List[0].Names[0].Name
+	blk := fd.Type.Params.List[0].Names[0].Name
+	if typeString(fd.Type.Params.List[0].Type) != "DataBlockMetadata" {
+		bad(fd, "parameter type")
+	}
+	t.env = map[string]string{"bufLen": "int", "chunkStart": "int64", blk: "DataBlockMetadata"}
+	var rw func(e ast.Expr) ast.Expr
+	rw = func(e ast.Expr) ast.Expr {
+		switch v := e.(type) {
+		case *ast.ParenExpr:
+			return &ast.ParenExpr{X: rw(v.X)}
+		case *ast.BinaryExpr:
+			return &ast.BinaryExpr{X: rw(v.X), Op: v.Op, Y: rw(v.Y), OpPos: v.OpPos}
+		case *ast.UnaryExpr:
+			return &ast.UnaryExpr{Op: v.Op, X: rw(v.X), OpPos: v.OpPos}
+		case *ast.SelectorExpr:
+			if isSel(v, recv, "chunkStart") {
+				return &ast.Ident{Name: "chunkStart", NamePos: v.Pos()}
+			}
+			return v
+		case *ast.CallExpr:
+			if calleeName(v) == "len" && len(v.Args) == 1 && isSel(v.Args[0], recv, "buf") {
+				return &ast.Ident{Name: "bufLen", NamePos: v.Pos()}
+			}
+			args := make([]ast.Expr, len(v.Args))
+			for i, a := range v.Args {
+				args[i] = rw(a)
+			}
+			return &ast.CallExpr{Fun: v.Fun, Args: args, Lparen: v.Lparen, Rparen: v.Rparen}
+		}
+		return e
+	}
+	isNilIdentE := func(e ast.Expr) bool { id, ok := e.(*ast.Ident); return ok && id.Name == "nil" }
+	ret := func(r *ast.ReturnStmt) string {
+		if len(r.Results) != 2 {
+			bad(r, "return arity")
+		}
+		okLit, isLit := boolLit(r.Results[1])
+		if !isLit {
+			bad(r, "ok result is not a literal")
+		}
+		if isNilIdentE(r.Results[0]) && okLit == "false" {
+			return ".none"
+		}
+		se, ok := r.Results[0].(*ast.SliceExpr)
+		if !ok || okLit != "true" || !isSel(se.X, recv, "buf") || se.Low == nil || se.High == nil || se.Slice3 {
+			bad(r, "return shape")
+		}
+		lo, hi := t.atom(rw(se.Low)), t.atom(rw(se.High))
+		return fmt.Sprintf("if !(decide (0 ≤ %s ∧ %s ≤ %s ∧ %s ≤ bufLen)) then .panic else (.some %s %s)", lo, lo, hi, hi, lo, hi)
+	}
+	var gen func(list []ast.Stmt) string
+	gen = func(list []ast.Stmt) string {
+		if len(list) == 0 {
+			bad(fd, "control reaches the end without a return")
+		}
+		switch v := list[0].(type) {
+		case *ast.ReturnStmt:
+			return ret(v)
+		case *ast.IfStmt:
+			if v.Init != nil || v.Else != nil || len(v.Body.List) != 1 {
+				bad(v, "if shape")
+			}
+			r, ok := v.Body.List[0].(*ast.ReturnStmt)
+			if !ok {
+				bad(v, "if body is not a return")
+			}
+			// c.buf == nil
+			if be, ok := v.Cond.(*ast.BinaryExpr); ok && be.Op == token.EQL && isSel(be.X, recv, "buf") && isNilIdentE(be.Y) {
+				return "if bufNil then " + ret(r) + "\nelse\n" + gen(list[1:])
+			}
+			return "if " + t.expr(rw(v.Cond)) + " then " + ret(r) + "\nelse\n" + gen(list[1:])
+		case *ast.AssignStmt:
+			if len(v.Lhs) != 1 || len(v.Rhs) != 1 || v.Tok != token.DEFINE {
+				bad(v, "assignment")
+			}
+			lhs, ok := v.Lhs[0].(*ast.Ident)
+			if !ok {
+				bad(v, "assignment target")
+			}
+			rhs := rw(v.Rhs[0])
+			ty := t.typeOf(rhs)
+			if ty == "" {
+				bad(v, "untyped right-hand side")
+			}
+			val := t.expr(rhs)
+			t.env[lhs.Name] = ty
+			return "let " + li(lhs.Name) + " := " + val + "\n" + gen(list[1:])
+		}
+		bad(list[0], fmt.Sprintf("statement %T", list[0]))
+		return ""
+	}
+	body := gen(fd.Body.List)
+	return fmt.Sprintf("/-- regenerated from `%s` (%s): `bufNil` = (c.buf == nil), `bufLen` = len(c.buf) -/\ndef heldSection (bufNil : Bool) (bufLen chunkStart : Int) (%s : DataBlockMetadata) : HeldOut :=\n%s\n",
+		key, filepath.Base(t.fset.Position(fd.Pos()).Filename), blk, indent(body))
 }
